@@ -148,6 +148,171 @@ theorem c16_exposure_stores_preserved_iff (st : ExpStores) (h : sortedB expKey s
   exact ⟨fun h => h.symm, fun h => h.symm⟩
 
 -- =============================================================================================
+-- orderbook: validation of the export
+
+theorem exportOb_scans (σ : State) :
+    (exportOb σ).parts = scan σ.books (·.parts) ∧ (exportOb σ).queues = scan σ.books (·.queues) ∧
+    (exportOb σ).pexps = scan σ.books (·.pexps) ∧ (exportOb σ).pexpsByIdx = scan σ.books (·.pexps) ∧
+    (exportOb σ).hist = scan σ.books (·.hist) ∧ (exportOb σ).books = σ.books.map Book.header :=
+  ⟨rfl, rfl, rfl, rfl, rfl, rfl⟩
+
+theorem any_self_sameExp (l : List (Nat × PExp)) : l.all (fun x => l.any (sameExp x)) = true := by
+  rw [List.all_eq_true]
+  intro x hx
+  rw [List.any_eq_true]
+  exact ⟨x, hx, by simp [sameExp]⟩
+
+theorem validateBook_export (σ : State) (hsb : Sorted Book.key σ.books) (B : Book) (hB : B ∈ σ.books) (hi : bookInv B = true) :
+    validateBook true (exportOb σ) (Book.header B) = 0 := by
+  unfold bookInv at hi
+  simp only [Bool.and_eq_true, Bool.or_eq_true, beq_iff_eq, bne_iff_ne, ne_eq] at hi
+  obtain ⟨⟨⟨⟨⟨⟨⟨⟨_, _⟩, _⟩, _⟩, _⟩, hlen⟩, hexp⟩, _⟩, _⟩ := hi
+  obtain ⟨_, hq, hpe, _, _, _⟩ := exportOb_scans σ
+  unfold validateBook
+  simp only [↓reduceIte, Bool.not_true, Bool.false_or]
+  have hrel : (exportOb σ).queues.filter (fun q => q.1 == (Book.header B).uid) = B.queues.map (fun y => (B.uid, y)) := by
+    rw [hq]
+    exact filter_scan σ.books hsb (·.queues) B hB
+  rw [hrel]
+  have hcount : ((B.queues.map (fun y => (B.uid, y))).length != (Book.header B).oddsCount) = false := by
+    simp only [List.length_map, Book.header, bne_eq_false_iff_eq]
+    exact hlen
+  rw [hcount]
+  have hcond : ((Book.header B).partCount != 0 && !((B.queues.map (fun y => (B.uid, y))).all
+      (fun q => (exportOb σ).pexps.any (fun e => e.1 == (Book.header B).uid && e.2.odds == q.2.1)))) = false := by
+    rcases hexp with h0 | hall
+    · simp [Book.header, h0]
+    · have : (B.queues.map (fun y => (B.uid, y))).all
+          (fun q => (exportOb σ).pexps.any (fun e => e.1 == (Book.header B).uid && e.2.odds == q.2.1)) = true := by
+        rw [List.all_eq_true]
+        intro q hq'
+        obtain ⟨y, hy, rfl⟩ := List.mem_map.mp hq'
+        have := List.all_eq_true.mp hall y hy
+        rw [List.any_eq_true] at this ⊢
+        obtain ⟨e, he, hodds⟩ := this
+        refine ⟨(B.uid, e), ?_, ?_⟩
+        · rw [hpe]
+          exact (mem_scan σ.books (·.pexps) _).mpr ⟨B, hB, rfl, he⟩
+        · simpa [Book.header] using hodds
+      simp [this]
+  rw [hcond]
+  rfl
+
+/-- C16 orderbook, patched code (repo_patches/genesis_orderbook_validate_per_book.diff): the export of a reachable
+    state with accepted parameters validates. -/
+theorem c16_validate_export_ob (σ : State) (h : obInv σ = true) (hp : σ.params.valid = true) :
+    validateOb true (exportOb σ) = 0 := by
+  unfold obInv at h
+  simp only [Bool.and_eq_true] at h
+  obtain ⟨⟨⟨hsb, hbk⟩, _⟩, _⟩ := h
+  rw [sortedB_iff] at hsb
+  obtain ⟨hpa, hq, hpe, hpi, hh, hb⟩ := exportOb_scans σ
+  have F1 : (exportOb σ).parts.all (fun p => (exportOb σ).books.any (fun b => b.uid == p.1)) = true := by
+    rw [List.all_eq_true]
+    intro p hp'
+    rw [hpa] at hp'
+    obtain ⟨B, hB, h1, _⟩ := (mem_scan _ _ p).mp hp'
+    rw [List.any_eq_true, hb]
+    exact ⟨(Book.header B), List.mem_map.mpr ⟨B, hB, rfl⟩, by simp [Book.header, h1]⟩
+  have F2 : firstErr ((exportOb σ).books.map (validateBook true (exportOb σ))) = 0 := by
+    apply firstErr_zero
+    intro c hc
+    rw [hb, List.map_map] at hc
+    obtain ⟨B, hB, rfl⟩ := List.mem_map.mp hc
+    exact validateBook_export σ hsb B hB (List.all_eq_true.mp hbk B hB)
+  have F3 : (exportOb σ).pexpsByIdx.all (fun x => (exportOb σ).pexps.any (sameExp x)) = true := by
+    rw [hpi, hpe]; exact any_self_sameExp _
+  have F4 : (exportOb σ).pexps.all (fun x => (exportOb σ).pexpsByIdx.any (sameExp x)) = true := by
+    rw [hpi, hpe]; exact any_self_sameExp _
+  have F5 : (exportOb σ).hist.all (fun x => (exportOb σ).pexps.any (sameExp x)) = true := by
+    rw [List.all_eq_true]
+    intro x hx
+    rw [hh] at hx
+    obtain ⟨B, hB, h1, h2⟩ := (mem_scan _ _ x).mp hx
+    have hi := List.all_eq_true.mp hbk B hB
+    unfold bookInv at hi
+    simp only [Bool.and_eq_true] at hi
+    have := List.all_eq_true.mp hi.2 x.2 h2
+    rw [List.any_eq_true] at this ⊢
+    obtain ⟨e, he, hm⟩ := this
+    refine ⟨(B.uid, e), ?_, ?_⟩
+    · rw [hpe]; exact (mem_scan _ _ _).mpr ⟨B, hB, rfl, he⟩
+    · simp only [Bool.and_eq_true, beq_iff_eq] at hm
+      simp [sameExp, h1, hm.1, hm.2]
+  have F6 : (exportOb σ).pairs.all (fun x => (exportOb σ).books.any (fun b => b.uid == x.1)) = true := by
+    rw [List.all_eq_true]
+    intro x hx
+    have hx' : x ∈ scan σ.books (fun b => b.pairs.map (fun y => (y.1, betUidOf σ y.2))) := by
+      unfold scan
+      simpa [exportOb, List.map_map, Function.comp_def] using hx
+    obtain ⟨B, hB, h1, _⟩ := (mem_scan _ _ x).mp hx'
+    rw [List.any_eq_true, hb]
+    exact ⟨(Book.header B), List.mem_map.mpr ⟨B, hB, rfl⟩, by simp [Book.header, h1]⟩
+  have F7 : obParamsOk (exportOb σ) = true := by
+    unfold Params.valid at hp
+    simp only [Bool.and_eq_true] at hp
+    have a : 0 < σ.params.obMaxPart := by simpa using hp.1.2
+    have b : 0 < σ.params.obBatch := by simpa using hp.2
+    simp [obParamsOk, exportOb, a, b]
+  unfold validateOb
+  simp only [F1, F2, F3, F4, F5, F6, F7, Bool.not_true, Bool.false_eq_true, ↓reduceIte, bne_self_eq_false]
+
+def cexTk : Tk := { ok := true, kycIgnore := true, kycApproved := false, kycId := 0 }
+
+def cexBase : State :=
+  { bal := [(1, 1000), (2, 1000)], time := 100, params := { houseMin := 10, betMin := 2, betFee := 1, houseMaxW := 3 } }
+
+/-- one market, nobody has deposited yet -/
+def obCexOne : State := run cexBase [.marketAdd 0 cexTk 1 50 5000 [11, 12] MS_ACTIVE]
+
+/-- two markets, one deposit in each -/
+def obCexTwo : State :=
+  run cexBase [.marketAdd 0 cexTk 1 50 5000 [11, 12] MS_ACTIVE, .marketAdd 0 cexTk 2 50 5000 [21, 22] MS_ACTIVE,
+    .deposit 1 cexTk 1 500 0, .deposit 2 cexTk 2 500 0]
+
+/-- C16 orderbook, code as it is: the export of a chain with one market and no deposit fails the module's own
+    validation ("book … not found for odds …": the book has no participation exposure for its own outcomes yet).
+    The patched check accepts it. -/
+theorem c16_ob_asis_counterexample_no_deposit :
+    obInv obCexOne = true ∧ obCexOne.books.length = 1 ∧
+    validateOb false (exportOb obCexOne) = 2 ∧ validateOb true (exportOb obCexOne) = 0 := by
+  decide +kernel
+
+/-- C16 orderbook, code as it is: with two markets that both have deposits the export fails too (every book is
+    asked for participation exposures of the outcomes of *all* books). -/
+theorem c16_ob_asis_counterexample_two_books :
+    obInv obCexTwo = true ∧ obCexTwo.books.length = 2 ∧ obCexTwo.deposits.length = 2 ∧
+    validateOb false (exportOb obCexTwo) = 2 ∧ validateOb true (exportOb obCexTwo) = 0 := by
+  decide +kernel
+
+theorem validateBook_asis_eq (g : ObGen) (b : BookRec) (hq : g.queues.filter (fun q => q.1 == b.uid) = g.queues)
+    (hp : b.partCount ≠ 0) : validateBook false g b = validateBook true g b := by
+  unfold validateBook
+  have hp' : (b.partCount != 0) = true := by simpa using hp
+  simp only [Bool.false_eq_true, ↓reduceIte, Bool.not_false, Bool.true_or, Bool.not_true, Bool.false_or, hp', hq]
+
+/-- C16 orderbook, code as it is, the part that holds: with exactly one book, and at least one participation in it,
+    the export validates. Excluded: a book without participations, and any state with two or more books. -/
+theorem c16_validate_export_ob_partial (σ : State) (h : obInv σ = true) (hp : σ.params.valid = true)
+    (B : Book) (hone : σ.books = [B]) (hpart : B.partCount ≠ 0) : validateOb false (exportOb σ) = 0 := by
+  have hfix := c16_validate_export_ob σ h hp
+  have hq : (exportOb σ).queues.filter (fun q => q.1 == B.uid) = (exportOb σ).queues := by
+    rw [List.filter_eq_self]
+    intro q hq
+    rw [(exportOb_scans σ).2.1, hone] at hq
+    obtain ⟨b, hb, h1, _⟩ := (mem_scan _ _ q).mp hq
+    rcases List.mem_cons.mp hb with rfl | hb
+    · simp [h1]
+    · cases hb
+  have hbooks : (exportOb σ).books = [Book.header B] := by
+    rw [(exportOb_scans σ).2.2.2.2.2, hone]; rfl
+  unfold validateOb at hfix ⊢
+  rw [hbooks] at hfix ⊢
+  simp only [List.map_cons, List.map_nil] at hfix ⊢
+  rw [validateBook_asis_eq (exportOb σ) (Book.header B) hq hpart]
+  exact hfix
+
+-- =============================================================================================
 -- ovm
 
 /-- C16 ovm: key vault (strings and order), both proposal stores and the proposal counter come back. -/
